@@ -125,7 +125,10 @@ func (c *packetConn) scheduleRead(b []byte, readBytes int, readAll bool, cb Asyn
 
 func (c *packetConn) getReadHandler(b []byte, readBytes int, readAll bool, cb AsyncReadCallbackPacket) internal.Handler {
 	return func(err error) {
-		c.ioc.Deregister(&c.slot)
+		if c.slot.Events == 0 {
+			// keep the object reachable while its other direction is still in flight
+			c.ioc.Deregister(&c.slot)
+		}
 
 		if err != nil {
 			cb(err, readBytes, nil)
@@ -182,7 +185,10 @@ func (c *packetConn) scheduleWrite(b []byte, to net.Addr, cb AsyncWriteCallbackP
 
 func (c *packetConn) getWriteHandler(b []byte, to net.Addr, cb AsyncWriteCallbackPacket) internal.Handler {
 	return func(err error) {
-		c.ioc.Deregister(&c.slot)
+		if c.slot.Events == 0 {
+			// keep the object reachable while its other direction is still in flight
+			c.ioc.Deregister(&c.slot)
+		}
 
 		if err != nil {
 			cb(err)
